@@ -197,16 +197,81 @@ func rulePathFresh(w *World, r *Report, pkg *ssa.Package, tag string) {
 
 // diffFunctions: functions that build hunks from two documents.
 func diffFunctions(w *World, pkg *ssa.Package) []*ssa.Function {
-	var out []*ssa.Function
+	// structural: the implementations of the Diff-returning method(s) of the
+	// internal node interface, and every unexported function of the package
+	// they reach by static calls that itself returns a Diff; names are only
+	// the fallback when the interface is not found
+	diffT := pkg.Type("Diff")
+	seen := map[*ssa.Function]bool{}
+	var out, work []*ssa.Function
+	returnsDiff := func(fn *ssa.Function) bool {
+		if diffT == nil {
+			return false
+		}
+		res := fn.Signature.Results()
+		for i := 0; i < res.Len(); i++ {
+			if types.Identical(res.At(i).Type(), diffT.Type()) {
+				return true
+			}
+		}
+		return false
+	}
+	if it := pkg.Type("jsonNodeInternals"); it != nil && diffT != nil {
+		if iface, ok := it.Type().Underlying().(*types.Interface); ok {
+			for i := 0; i < iface.NumMethods(); i++ {
+				m := iface.Method(i)
+				sig := m.Type().(*types.Signature)
+				isDiff := false
+				for j := 0; j < sig.Results().Len(); j++ {
+					if types.Identical(sig.Results().At(j).Type(), diffT.Type()) {
+						isDiff = true
+					}
+				}
+				if !isDiff {
+					continue
+				}
+				for _, n := range w.Implementers(pkg, "jsonNodeInternals") {
+					if fn := w.MethodOpt(pkg, n.Obj().Name(), m.Name()); fn != nil && fn.Blocks != nil && !seen[fn] {
+						seen[fn] = true
+						work = append(work, fn)
+					}
+				}
+			}
+		}
+	}
+	for len(work) > 0 {
+		fn := work[0]
+		work = work[1:]
+		out = append(out, fn)
+		withClosures(fn, func(f *ssa.Function) {
+			allInstrs(f, func(in ssa.Instruction) {
+				c, ok := in.(ssa.CallInstruction)
+				if !ok {
+					return
+				}
+				sf := staticCallee(c)
+				if sf == nil || sf.Blocks == nil || sf.Parent() != nil || sf.Synthetic != "" || fnPkg(sf) != pkg.Pkg || seen[sf] || !returnsDiff(sf) {
+					return
+				}
+				if obj, _ := sf.Object().(*types.Func); obj == nil || obj.Exported() {
+					return
+				}
+				seen[sf] = true
+				work = append(work, sf)
+			})
+		})
+	}
 	for _, fn := range w.FuncsOf(pkg) {
-		if fn.Parent() != nil || fn.Synthetic != "" {
+		if fn.Parent() != nil || fn.Synthetic != "" || seen[fn] {
 			continue
 		}
 		n := fn.Name()
 		if n == "diff" || strings.HasPrefix(n, "diff") {
+			seen[fn] = true
 			out = append(out, fn)
 		}
 	}
+	sort.Slice(out, func(i, j int) bool { return fnName(out[i]) < fnName(out[j]) })
 	return out
 }
 
